@@ -59,6 +59,11 @@ fn gen(rng: &mut Rng, tier: Tier) -> Vec<Case> {
         match i % 5 { 0 => { a.ops.push(Op::Merge); b.ops.push(Op::Merge); } 1 => { a.ops.push(Op::Merge); } 2 => { b.ops.push(Op::Merge); } _ => {} }
         if rng.chance(1, 3) { a.ops.push(Op::SetCov); }
         if rng.chance(1, 3) { b.ops.insert(0, Op::SetCov); }
+        if i % 6 == 5 { // both sets at the top of the coordinate type, same shift
+            let m = a.max_stop().max(b.max_stop());
+            let d = u64::MAX - 1 - rng.below(3) - m;
+            a.shift_up(d); b.shift_up(d);
+        }
         out.push(Case::new(if small { "boundary" } else { "random" }, enc(&C { a, b })));
     }
     out
@@ -67,7 +72,7 @@ fn gen(rng: &mut Rng, tier: Tier) -> Vec<Case> {
 pub fn prop() -> PropDef {
     PropDef {
         id: "C19",
-        rule: "corpus, then pairs of histories new/insert*/merge_overlaps/set_cov (set_cov before later inserts and merges included) over non-empty intervals: small (0-5 intervals each, coordinates 0..20, incl. empty, identical, disjoint, interleaved, nested) and large (3-60 each, offsets up to 2^63); all four merged/unmerged combinations forced in rotation. Non-trivial: both sides non-empty and some side has two touching/overlapping intervals. Thorough adds the exhaustive small scope: all pairs of sequences of <= 2 non-empty intervals over 0..=3 in histories with merges and set_cov. Distinct = distinct input token sequence.",
+        rule: "corpus, then pairs of histories new/insert*/merge_overlaps/set_cov (set_cov before later inserts and merges included) over non-empty intervals: small (0-5 intervals each, coordinates 0..20, incl. empty, identical, disjoint, interleaved, nested) and large (3-60 each, offsets up to 2^63); all four merged/unmerged combinations forced in rotation; every sixth pair lifted together to the top of u64. Non-trivial: both sides non-empty and some side has two touching/overlapping intervals. Thorough adds the exhaustive small scope: all pairs of sequences of <= 2 non-empty intervals over 0..=3 in histories with merges and set_cov. Distinct = distinct input token sequence.",
         observable: "Lapper::cov of both sets, union_and_intersect both ways, union, intersect",
         gen, exec, shrink, child: None,
     }
